@@ -7,15 +7,15 @@
 //!   tbl <ops>                        real `Instructions::{add, add_with_line, add_with_span}` driven
 //!                                    with an arbitrary add sequence, then `get_line/get_span` per pc
 //!   ins <tid> <block> <spec>         line/span tables of real compiled templates, per pc
-//!   err <id> <v> <h>                 failing template `id` shifted by vertical variant v and
-//!                                    horizontal variant h: the whole located error chain
+//!   err <id> <class> <cfg> <v> <h>   failing template `id` in environment configuration `cfg`, shifted by
+//!                                    vertical variant v and horizontal variant h: the located error chain
 //!
 //! `<spec>` is a compact source description: segments joined by `.`, `R<n>x<hex>` (unit repeated n
 //! times) or `H<hex>`.  Nothing here decides pass/fail: lib/props/c14.py evaluates the oracle and the
 //! Lean model's predictions.
 //!
 //! usage: c14 gen <quick|thorough>
-//!        c14 one <stream> <fields…>       replay of one case line
+//!        c14 one <stream> <fields…>       replay of one case line (`one err <id> <class> <cfg> <v> <h> [show]`)
 use minijinja::machinery::{self, Instruction, Instructions, Span, WhitespaceConfig};
 use minijinja::syntax::SyntaxConfig;
 use minijinja::value::Value;
@@ -452,6 +452,79 @@ fn runtime_cases() -> Vec<Case> {
         ("inc", "{% block q %}\n@@{{ 1 + s }}\n{% endblock %}"),
         ("main", "a\n{% include \"inc\" %}"),
     ]));
+    // --- failing prints (`{{ VAR }}`) in every construct: `nothing` is none (refused by the failing
+    // custom formatter of configuration `n`), `missing` is undefined (strict print; with a custom
+    // formatter that check lives in Environment::format instead of the VM)
+    for (tag, var, flags) in [("none", "nothing", ""), ("undef", "missing", "s")] {
+        let mut p = |id: &str, main: &str, shifted: &str, templates: &[(&str, &str)]| {
+            let t: Vec<(String, String)> = templates.iter().map(|(a, b)| (a.to_string(), b.replace("VAR", var))).collect();
+            let tr: Vec<(&str, &str)> = t.iter().map(|(a, b)| (a.as_str(), b.as_str())).collect();
+            v.push(rt(&format!("print_{}_{}", tag, id), flags, main, shifted, &tr));
+        };
+        p("top", "main", "main", &[("main", "first\nsecond\n  @@{{ VAR }}\nlast")]);
+        p("top_after_print", "main", "main", &[("main", "first\nsecond {{ 42 }}\n  @@{{ VAR }}\nlast")]);
+        p("top_ml", "main", "main", &[("main", "a\n@@{{\n  VAR\n}}\nc")]);
+        p("top_ws", "main", "main", &[("main", "a\n@@{{ VAR -}}\n{{- x }}\nb")]);
+        p("cond_expr", "main", "main", &[("main", "a\n@@{{ VAR if x else 1 }}\nb")]);
+        p("macro", "main", "main", &[("main", "{% macro m(v) %}\n  @@{{ VAR }}\n{% endmacro %}\nx\n{{ m(1) }}")]);
+        p("macro_arg", "main", "main", &[("main", "{% macro m(v) %}\n  @@{{ v }}\n{% endmacro %}\nx\n{{ m(VAR) }}")]);
+        p("macro_imported", "main", "lib", &[
+            ("lib", "{# lib #}\n{% macro show(v) %}\n  @@{{ v }}\n{% endmacro %}\n"),
+            ("main", "{% import \"lib\" as lib %}\n1\n2\n3\n4\n5\n6\n{{ lib.show(VAR) }}"),
+        ]);
+        p("macro_from_import", "main", "lib", &[
+            ("lib", "{% macro show() %}\n\n  @@{{ VAR }}\n{% endmacro %}\n"),
+            ("main", "{% from \"lib\" import show %}\n1\n2\n{{ show() }}"),
+        ]);
+        p("call_body", "main", "main", &[("main", "{% macro m() %}[{{ caller() }}]{% endmacro %}\n{% call m() %}\n  @@{{ VAR }}\n{% endcall %}")]);
+        p("call_body_imported_macro", "main", "main", &[
+            ("lib", "{% macro m() %}[{{ caller() }}]{% endmacro %}"),
+            ("main", "{% from \"lib\" import m %}\n{% call m() %}\n  @@{{ VAR }}\n{% endcall %}"),
+        ]);
+        p("block_plain", "main", "main", &[("main", "a\n{% block b %}\n@@{{ VAR }}\n{% endblock %}")]);
+        p("block_child", "main", "main", &[
+            ("base", "b1\n<{% block b %}{% endblock %}>\nb3"),
+            ("main", "{% extends \"base\" %}\n{% block b %}\n x @@{{ VAR }}\n{% endblock %}"),
+        ]);
+        p("block_parent", "main", "base", &[
+            ("base", "b1\n{% block b %}\n@@{{ VAR }}\n{% endblock %}\nb3"),
+            ("main", "{% extends \"base\" %}\n{% block other %}{% endblock %}"),
+        ]);
+        p("layout_toplevel", "main", "base", &[
+            ("base", "b1\n@@{{ VAR }}\n{% block b %}{% endblock %}"),
+            ("main", "{% extends \"base\" %}\n{% block b %}x{% endblock %}"),
+        ]);
+        p("super", "main", "base", &[
+            ("base", "b1\n{% block b %}\n@@{{ VAR }}\n{% endblock %}\nb3"),
+            ("main", "{% extends \"base\" %}\n{% block b %}\n[{{ super() }}]\n{% endblock %}"),
+        ]);
+        p("self_block", "main", "main", &[("main", "{% set go = false %}{% block b %}\n@@{{ VAR if go else 1 }}\n{% endblock %}\n{% set go = true %}{{ self.b() }}")]);
+        p("include", "main", "inc", &[
+            ("inc", "i1\ni2 @@{{ VAR }}\ni3"),
+            ("main", "a\n{% include \"inc\" %}\nb"),
+        ]);
+        p("include_nested", "main", "inc2", &[
+            ("inc2", "j1\nj2\n@@{{ VAR }}"),
+            ("inc", "i1\n{% include \"inc2\" %}"),
+            ("main", "a\n\n{% include \"inc\" %}"),
+        ]);
+        p("include_in_macro", "main", "inc", &[
+            ("inc", "\n\n@@{{ VAR }}"),
+            ("main", "{% macro m() %}\n{% include \"inc\" %}\n{% endmacro %}\n\n{{ m() }}"),
+        ]);
+        p("loop", "main", "main", &[("main", "a\n{% for a in lst %}\n  @@{{ VAR }}\n{% endfor %}")]);
+        p("loop_after_print", "main", "main", &[("main", "a\n{% for a in lst %}\n  {{ a }} @@{{ VAR }}\n{% endfor %}")]);
+        p("loop_else", "main", "main", &[("main", "{% for a in [] %}\n{% else %}\n @@{{ VAR }}\n{% endfor %}")]);
+        p("loop_recursive", "main", "main", &[("main", "{% for a in [[1]] recursive %}\n{% if a is iterable %}{{ loop(a) }}{% else %}\n@@{{ VAR }}{% endif %}\n{% endfor %}")]);
+        p("filter_block", "main", "main", &[("main", "a\n{% filter upper %}\n@@{{ VAR }}\n{% endfilter %}")]);
+        p("set_block", "main", "main", &[("main", "a\n{% set q %}\n@@{{ VAR }}\n{% endset %}")]);
+        p("with_body", "main", "main", &[("main", "a\n{% with q = 1 %}\n@@{{ VAR }}\n{% endwith %}")]);
+        p("if_body", "main", "main", &[("main", "a\n{% if x %}\n@@{{ VAR }}\n{% endif %}")]);
+        p("autoescape_body", "main", "main", &[("main", "a\n{% autoescape true %}\n@@{{ VAR }}\n{% endautoescape %}")]);
+        p("escape_filter", "main", "main", &[("main", "a\nb @@{{ VAR|e }}\nc")]);
+        p("join_filter", "main", "main", &[("main", "a\nb @@{{ [1, VAR]|join(\",\") }}\nc")]);
+        p("string_concat", "main", "main", &[("main", "a\nb @@{{ VAR }}{{ x }}\nc")]);
+    }
     // --- vertical insertion in the middle of the template (marker ^^)
     v.push(one("vmid_expr", "", "{{ x }}\nline two {{ x }}\n^^third\n@@{{ 1 + s }}\n"));
     v.push(one("vmid_for", "", "{% for a in lst %}\n^^{{ a }}\n@@{{ a + s }}\n{% endfor %}"));
@@ -655,7 +728,9 @@ fn build_case(c: &Case, vi: usize, hi: usize) -> Built {
         vline = 1 + plain[..pv].bytes().filter(|x| *x == b'\n').count();
         mline = 1 + plain[..ph].bytes().filter(|x| *x == b'\n').count();
         let tail = &plain[ph..];
-        let tag_end = ["}}", "%}", "#}"].iter().filter_map(|e| tail.find(e)).min().unwrap_or(tail.len());
+        let tag_end = ["}}", "%}", "#}", "»", "%>", "#>"].iter().filter_map(|e| tail.find(e)).min().unwrap_or(tail.len());
+        // an unclosed block extends to the end of the template
+        let tag_end = if c.id.starts_with("syn_missing_") { tail.len() } else { tag_end };
         mext = tail[..tag_end].bytes().filter(|x| *x == b'\n').count();
         let base_lines = 1 + plain.bytes().filter(|x| *x == b'\n').count();
         let (vn, unit) = V_SHIFTS[vi];
@@ -679,15 +754,83 @@ fn build_case(c: &Case, vi: usize, hi: usize) -> Built {
     Built { sources, pv, ph, vline, n, vbytes, hbytes, mline, mext }
 }
 
-fn run_case(c: &Case, vi: usize, hi: usize) -> String {
+/// environment configurations (one letter each):
+///   d default (debug on)          x debug off
+///   p pass-through custom formatter (`set_formatter(escape_formatter)`)
+///   n custom formatter that refuses `none` and the string "REFUSED"
+///   a auto-escape callback choosing a custom (unknown) format for the shifted template
+///   k keep_trailing_newline       t trim_blocks + lstrip_blocks
+///   c custom delimiters `<% %>`, `« »`, `<# #>` (the templates are rewritten accordingly)
+///   s strict, m semi-strict, h chainable undefined behaviour
+const CONFIGS: &[&str] = &["d", "p", "n", "x", "a", "k", "t", "c", "s", "m", "h"];
+
+fn custom_syntax_case(c: &Case) -> Case {
+    let mut c2 = c.clone();
+    for (_, t) in c2.templates.iter_mut() {
+        *t = t
+            .replace("{%", "<%")
+            .replace("%}", "%>")
+            .replace("{{", "«")
+            .replace("}}", "»")
+            .replace("{#", "<#")
+            .replace("#}", "#>");
+    }
+    c2
+}
+
+fn run_case(c0: &Case, cfg: &str, vi: usize, hi: usize) -> String {
+    let cc;
+    let c = if cfg == "c" {
+        cc = custom_syntax_case(c0);
+        &cc
+    } else {
+        c0
+    };
     let b = build_case(c, vi, hi);
     let texts: Vec<(String, String)> = b.sources.iter().map(|(n, s)| (n.clone(), s.build())).collect();
     let lookup = |name: &str| texts.iter().find(|(n, _)| n == name).map(|(_, s)| s.clone());
     let res = guarded(|| {
         let mut env = Environment::new();
-        env.set_debug(true);
-        if c.flags.contains('s') {
+        env.set_debug(cfg != "x");
+        if c.flags.contains('s') || cfg == "s" {
             env.set_undefined_behavior(UndefinedBehavior::Strict);
+        } else if cfg == "m" {
+            env.set_undefined_behavior(UndefinedBehavior::SemiStrict);
+        } else if cfg == "h" {
+            env.set_undefined_behavior(UndefinedBehavior::Chainable);
+        }
+        match cfg {
+            "p" => env.set_formatter(|out, state, value| minijinja::escape_formatter(out, state, value)),
+            "n" => env.set_formatter(|out, state, value| {
+                if value.is_none() || value.as_str() == Some("REFUSED") {
+                    return Err(Error::new(ErrorKind::InvalidOperation, "refusing to print this value"));
+                }
+                minijinja::escape_formatter(out, state, value)
+            }),
+            "a" => {
+                let shifted = c.shifted.clone();
+                env.set_auto_escape_callback(move |name| {
+                    if name == shifted {
+                        minijinja::AutoEscape::Custom("weird")
+                    } else {
+                        minijinja::AutoEscape::None
+                    }
+                });
+            }
+            "k" => env.set_keep_trailing_newline(true),
+            "t" => {
+                env.set_trim_blocks(true);
+                env.set_lstrip_blocks(true);
+            }
+            "c" => env.set_syntax(
+                SyntaxConfig::builder()
+                    .block_delimiters("<%", "%>")
+                    .variable_delimiters("«", "»")
+                    .comment_delimiters("<#", "#>")
+                    .build()
+                    .unwrap(),
+            ),
+            _ => {}
         }
         if c.flags.contains('f') {
             env.set_fuel(Some(60));
@@ -723,7 +866,7 @@ fn run_case(c: &Case, vi: usize, hi: usize) -> String {
             Err(e) => format!("load|{}", describe_chain(&e, &lookup)),
             Ok(()) => {
                 let t = env.get_template(&c.main).unwrap();
-                let ctx = context! { x => 1, y => 0, n => 0, s => "str", lst => vec![1, 2, 3], d => context!{ a => 1 }, name => "n" };
+                let ctx = context! { x => 1, y => 0, n => 0, s => "str", lst => vec![1, 2, 3], d => context!{ a => 1 }, name => "n", nothing => Value::from(()) };
                 match t.render(ctx) {
                     Err(e) => format!("render|{}", describe_chain(&e, &lookup)),
                     Ok(_) => "noerror|".to_string(),
@@ -1018,23 +1161,48 @@ fn all_cases(tier: &str, rng: &mut Rng) -> Vec<Case> {
     v
 }
 
-/// which (v, h) variants a case gets: fixed-site cases get the whole grid, planted cases the small
-/// shifts always and the large ones for a deterministic sample (all in the thorough tier)
-fn variants(c: &Case, idx: usize, tier: &str) -> Vec<(usize, usize)> {
+/// which (cfg, v, h) variants a case gets.  Fixed-site cases: the whole shift grid in the default
+/// configuration and (failing prints: every configuration, whole grid) a reduced grid in every other
+/// configuration.  Planted cases: small shifts always and the large ones for a deterministic sample
+/// in the default configuration, plus one other configuration per case (rotating) on a reduced
+/// grid.  Thorough: whole grid for fixed-site cases in every configuration; planted cases whole grid
+/// in the default and in one rotating configuration.
+fn variants(c: &Case, idx: usize, tier: &str) -> Vec<(&'static str, usize, usize)> {
+    const REDUCED: &[(usize, usize)] = &[(0, 0), (1, 0), (3, 2), (4, 1), (5, 0), (0, 3), (6, 1)];
+    // (not `t`: with lstrip_blocks text inserted in front of a block tag changes what the tag strips,
+    // so "nothing else changes" does not hold for the data tokens some end-of-input errors point at)
+    const PLANT_CFGS: &[&str] = &["p", "n", "x", "k", "c"];
     let mut out = Vec::new();
-    for vi in 0..V_SHIFTS.len() {
-        for hi in 0..H_SHIFTS.len() {
-            let big = V_SHIFTS[vi].0 > 1000 || H_SHIFTS[hi] == "L";
-            let small_sample = vi <= 1 || (vi == 3 && hi == 2) || (vi == 2 && hi == 1);
-            let keep = if c.class != "planted" || tier == "thorough" {
-                true
-            } else if big {
-                idx % 16 == (vi * 4 + hi) % 16
-            } else {
-                small_sample || idx % 4 == 0
-            };
-            if keep {
-                out.push((vi, hi));
+    let is_print = c.id.starts_with("print_");
+    for cfg in CONFIGS {
+        let cfg: &'static str = cfg;
+        if c.class == "planted" {
+            if cfg != "d" && PLANT_CFGS[idx % PLANT_CFGS.len()] != cfg {
+                continue;
+            }
+        } else if cfg == "a" && (!is_print || c.id.ends_with("_after_print")) {
+            continue; // the custom auto-escape format makes every print of the shifted template fail
+        } else if cfg != "d" && c.flags.contains('f') {
+            continue; // where the fuel runs out depends on the number of instructions, i.e. on the configuration and the inserted text
+        }
+        for vi in 0..V_SHIFTS.len() {
+            for hi in 0..H_SHIFTS.len() {
+                let big = V_SHIFTS[vi].0 > 1000 || H_SHIFTS[hi] == "L";
+                let small_sample = vi <= 1 || (vi == 3 && hi == 2) || (vi == 2 && hi == 1);
+                let keep = if tier == "thorough" {
+                    true
+                } else if c.class != "planted" {
+                    cfg == "d" || (is_print && matches!(cfg, "p" | "n" | "a")) || REDUCED.contains(&(vi, hi))
+                } else if cfg != "d" {
+                    matches!((vi, hi), (0, 0) | (1, 1) | (3, 2)) || (idx % 8 == 0 && REDUCED.contains(&(vi, hi)))
+                } else if big {
+                    idx % 16 == (vi * 4 + hi) % 16
+                } else {
+                    small_sample || idx % 4 == 0
+                };
+                if keep {
+                    out.push((cfg, vi, hi));
+                }
             }
         }
     }
@@ -1048,8 +1216,8 @@ fn gen(tier: &str) {
     // err stream
     let cases = all_cases(tier, &mut rng);
     for (idx, c) in cases.iter().enumerate() {
-        for (vi, hi) in variants(c, idx, tier) {
-            writeln!(out, "err {} {} {} {}\t{}", c.id, c.class, vi, hi, run_case(c, vi, hi)).unwrap();
+        for (cfg, vi, hi) in variants(c, idx, tier) {
+            writeln!(out, "err {} {} {} {} {}\t{}", c.id, c.class, cfg, vi, hi, run_case(c, cfg, vi, hi)).unwrap();
         }
     }
     // lex stream: bases, all failing templates (unshifted and lightly shifted), random soups
@@ -1117,10 +1285,12 @@ fn main() {
                     let tier = std::env::var("VERIF_TIER").unwrap_or_else(|_| "quick".into());
                     let cases = all_cases(&tier, &mut rng);
                     let c = cases.iter().find(|c| c.id == args[3]).expect("unknown case id");
-                    let (vi, hi): (usize, usize) = (args[5].parse().unwrap(), args[6].parse().unwrap());
-                    println!("err {} {} {} {}\t{}", c.id, c.class, vi, hi, run_case(c, vi, hi));
-                    if args.get(7).map(|s| s == "show").unwrap_or(false) {
-                        let b = build_case(c, vi, hi);
+                    let cfg = args[5].as_str();
+                    let (vi, hi): (usize, usize) = (args[6].parse().unwrap(), args[7].parse().unwrap());
+                    println!("err {} {} {} {} {}\t{}", c.id, c.class, cfg, vi, hi, run_case(c, cfg, vi, hi));
+                    if args.get(8).map(|s| s == "show").unwrap_or(false) {
+                        let cc = if cfg == "c" { custom_syntax_case(c) } else { c.clone() };
+                        let b = build_case(&cc, vi, hi);
                         for (n, s) in &b.sources {
                             let t = s.build();
                             eprintln!("--- {} ({} bytes){}", n, t.len(), if t.len() < 400 { format!("\n{}", t) } else { String::new() });
